@@ -9,7 +9,7 @@
    denotes ([phys_id]: no symbolic links); [r_failed_early r]: the log has
    errors when the write phase starts (scan, link, overwrite/duplicate checks,
    cancellation); [r_errors r]: the build reports errors (also on-end errors). *)
-From V Require Import Common.Base C17.WriteSM C17.Spec C17.Proofs C17.CompileProofs C17.DiskProofs C17.SpecProofs C17.IOFail C17.PathModel C17.PathProofs C17.LinkProofs C17.Modes C17.Findings.
+From V Require Import Common.Base C17.WriteSM C17.Spec C17.Proofs C17.CompileProofs C17.DiskProofs C17.SpecProofs C17.IOFail C17.PathModel C17.PathProofs C17.RelProofs C17.LinkProofs C17.Modes C17.IOHist C17.Cancel C17.Findings.
 
 (* ---- mechanism: validateBuildOptions ---- *)
 Theorem allow_overwrite_forced_only_without_write :
@@ -314,19 +314,37 @@ Theorem output_inside_outdir :
 Proof. exact fs_join_inside. Qed.
 Print Assumptions output_inside_outdir.
 
-(* the "../" -> "_.._/" rewrite of PathRelativeToOutbase removes every
-   parent-directory segment when they only form a leading run.
-   PARTIAL: the full statement (for every outbase and entry path the [dir]
-   part has no ".." segment) also needs "Rel of two cleaned absolute paths has
-   '..' only as a leading run"; that is evaluated on every correspondence case
-   (oracle relative-dir-has-dotdot), not proved. *)
-Theorem neutralise_no_dotdot_partial :
+(* the [dir] part that PathRelativeToOutbase computes never has a
+   parent-directory segment: for every outbase and every effective absolute
+   path (Unix flavour, no backslash characters in the file names).  Proof: Rel
+   of two cleaned absolute paths is a leading run of ".." followed by proper
+   elements (rel_shaped), the directory text of such a path keeps that shape
+   (dir_text_of_shaped), and the "../" -> "_.._/" rewrite removes the run. *)
+Theorem relative_dir_has_no_dotdot :
+  forall outbase absPath0 avoidIndex custom,
+    is_rooted outbase = true ->
+    is_rooted (effective_abs outbase absPath0 avoidIndex custom) = true ->
+    no_bs (effective_abs outbase absPath0 avoidIndex custom) = true ->
+    has_dd (fst (path_relative_to_outbase outbase absPath0 avoidIndex custom)) = false.
+Proof. exact relative_dir_no_dotdot. Qed.
+Print Assumptions relative_dir_has_no_dotdot.
+
+(* the effective path is absolute in the ordinary cases *)
+Theorem effective_path_is_absolute :
+  forall outbase absPath0 ai custom,
+    is_rooted outbase = true -> custom <> [] -> is_rooted custom = false ->
+    is_rooted (effective_abs outbase absPath0 ai custom) = true.
+Proof. exact effective_abs_relative_custom_rooted. Qed.
+Print Assumptions effective_path_is_absolute.
+
+(* the rewrite itself, for any directory text whose parent-directory segments form only a leading run *)
+Theorem neutralise_removes_leading_dotdot :
   forall d0,
     let d1 := map (fun c => if c =? 92 then SL else c) d0 in
     let n := count_dotdot (length d1) d1 in
     has_dd (skipn (n * 3) d1) = false -> has_dd (neutralise d0) = false.
 Proof. exact neutralise_no_dotdot. Qed.
-Print Assumptions neutralise_no_dotdot_partial.
+Print Assumptions neutralise_removes_leading_dotdot.
 
 (* REFUTED: "inside the output directory whenever the templates contain no
    parent-directory segment" - the [name] of the entry file "...js" is ".." *)
@@ -405,3 +423,87 @@ Theorem cli_build_mode_allow_is_the_flag :
   forall w a s, effective_allow (mode_opts CliBuild w a s) = a.
 Proof. exact cli_build_allow_is_the_flag. Qed.
 Print Assumptions cli_build_mode_allow_is_the_flag.
+
+(* ---- output_inside_outdir for every kind of output file (entry points with
+   generated or explicit {in,out} output paths, shared chunks, file/copy-loader
+   assets); the path functions are the ones tied by the api.Build
+   correspondence (outpath / chunkpath / assetpath cases) ---- *)
+Theorem entry_output_inside_outdir :
+  forall outdir tmpl outbase entry custom hash ext,
+    is_rooted outdir = true -> ext <> [] ->
+    no_dotdot_seg (entry_rel_path tmpl outbase entry custom hash ext) = true ->
+    entry_out_path outdir tmpl outbase entry custom hash ext =
+    SL :: join_with SL (clean_segs outdir ++ filter proper (split_on SL (entry_rel_path tmpl outbase entry custom hash ext))).
+Proof. exact entry_inside. Qed.
+Print Assumptions entry_output_inside_outdir.
+
+Theorem chunk_output_inside_outdir :
+  forall outdir tmpl hash ext,
+    is_rooted outdir = true -> ext <> [] ->
+    no_dotdot_seg (chunk_rel_path tmpl hash ext) = true ->
+    chunk_out_path outdir tmpl hash ext =
+    SL :: join_with SL (clean_segs outdir ++ filter proper (split_on SL (chunk_rel_path tmpl hash ext))).
+Proof. exact chunk_inside. Qed.
+Print Assumptions chunk_output_inside_outdir.
+
+Theorem asset_output_inside_outdir :
+  forall outdir tmpl outbase asset hash,
+    is_rooted outdir = true -> asset_rel_path tmpl outbase asset hash <> [] ->
+    no_dotdot_seg (asset_rel_path tmpl outbase asset hash) = true ->
+    asset_out_path outdir tmpl outbase asset hash =
+    SL :: join_with SL (clean_segs outdir ++ filter proper (split_on SL (asset_rel_path tmpl outbase asset hash))).
+Proof. exact asset_inside. Qed.
+Print Assumptions asset_output_inside_outdir.
+
+(* ---- histories with write failures: what a rebuild deletes ----
+   FULL statement (false): "every path a rebuild deletes was written by an
+   earlier rebuild of the same context and is not an input of the current
+   build" - refuted by deletes_only_own_under_write_failure_refuted (J2) and
+   no_input_deleted_by_successful_rebuild_refuted (F2), both kept above.
+   PARTIAL, excluding exactly those two shapes: every deleted path was
+   REPORTED by an earlier rebuild and is not a current output; it was written
+   unless it is a path at which an earlier write failed (J2); it is not an
+   input of the current build unless an input is a path an earlier rebuild
+   reported (F2).  Every history, every file system, both steps. *)
+Theorem io_deletes_only_own_partial :
+  forall phys fixed opt d0 ocs pre oc wf res post,
+    trace_io_full phys fixed opt (init d0) ocs = pre ++ (oc, wf, res) :: post ->
+    forall p, In (EDelete p) (r_effects res) ->
+      In p (reported_paths pre) /\
+      ~ In p (map o_path (r_outputs res)) /\
+      (In p (written_paths_io pre) \/ In p (failed_paths pre)) /\
+      ((forall q, In q (inputs oc) -> ~ In q (reported_paths pre)) -> ~ In p (inputs oc)).
+Proof. exact io_deletes_all. Qed.
+Print Assumptions io_deletes_only_own_partial.
+
+(* ---- cancellation: the flag is read in ScanBundle, on entry of Compile and
+   once after Compile returns, never again ---- *)
+
+(* a build that reports "The build was canceled" (Cancel landed before that
+   last check) changes nothing: not the disk, not the hash table, no outputs *)
+Theorem cancelled_build_writes_nothing :
+  forall phys opt st oc cp st' r,
+    reports_cancel cp = true ->
+    step phys opt st (with_cancel oc cp) = (st', r) ->
+    st' = st /\ r_effects r = [] /\ r_errors r = true /\ r_outputs r = [].
+Proof. exact cancelled_build_changes_nothing. Qed.
+Print Assumptions cancelled_build_writes_nothing.
+
+(* a Cancel() that lands after the check is not seen by the running build *)
+Theorem cancel_after_the_check_is_ignored :
+  forall phys opt st oc,
+    step phys opt st (with_cancel oc AfterCheck) = step phys opt st (with_cancel oc NoCancel).
+Proof. exact cancel_after_check_is_ignored. Qed.
+Print Assumptions cancel_after_the_check_is_ignored.
+
+(* REFUTED: "whenever Cancel() lands while the build is active, the build
+   writes nothing" (replayed: Cancel() from an on-end callback; racing replays
+   only ever show the two consistent outcomes) *)
+Theorem cancel_any_time_writes_nothing_refuted :
+  exists opt d0 oc cp,
+    cp <> NoCancel /\
+    let st1 := fst (step phys_id opt (init d0) (with_cancel oc cp)) in
+    let r1 := snd (step phys_id opt (init d0) (with_cancel oc cp)) in
+    r_errors r1 = false /\ exists p, lookup d0 p = None /\ lookup (disk st1) p <> None.
+Proof. exact cancel_any_time_writes_nothing_refuted_w. Qed.
+Print Assumptions cancel_any_time_writes_nothing_refuted.
